@@ -230,9 +230,11 @@ KINDS = ["text", "onoff", "datetime", "float", "int"]
 
 
 def gen_table(rng, sep=";", max_cols=4, max_rows=6, kinds=None, odd=True, transposed=None, excel=False,
-              min_cols=1, bigint=True):
+              min_cols=1, bigint=True, empty_rate=0.0):
     kinds = kinds or KINDS
     ncols = rng.randint(min_cols, max_cols)
+    if empty_rate and rng.random() < empty_rate:
+        ncols = 0           # a table of name and destinations only
     nrows = rng.choice([0, 1, 1, 2, 3, max_rows]) if rng.random() < 0.8 else rng.randint(0, max_rows)
     names = []
     while len(names) < ncols:
